@@ -175,7 +175,7 @@ URE_NOTBOL` behind every character and `flags = 0` behind every row separator wh
 call the variable describes the end of the haystack, not the position `first`.) -/
 theorem fwd_continue_bol_counterexample :
     (hayFwd bolPage.text 1 2).2 = 2 ∧
-    ((pageFwd bolSpy bolCtx 0x100 bolPage false).1, (pageFwd bolSpy bolCtx 0x100 bolPage false).2.hl) = (1, [(1, 2), (1, 3)]) ∧
+    ((pageFwd Shape.repaired bolSpy bolCtx 0x100 bolPage false).1, (pageFwd Shape.repaired bolSpy bolCtx 0x100 bolPage false).2.hl) = (1, [(1, 2), (1, 3)]) ∧
     (∀ t, bolSpy { notBol := true } t = none) :=
   ⟨cexD8_facts.1, cexD8_facts.2, bolSpy_notbol⟩
 
